@@ -808,8 +808,10 @@ class CtxAwareTransformer(NodeTransformer):
     def visit_Delete(self, node):
         """Handle visiting a del statement."""
         for targ in node.targets:
-            if isinstance(targ, Name):
-                self.ctxremove(targ.id)
+            # ``del a, (b, c), [d]``: every Name with a Del context
+            for sub in walk(targ):
+                if isinstance(sub, Name) and isinstance(sub.ctx, Del):
+                    self.ctxremove(sub.id)
         self.generic_visit(node)
         return node
 
